@@ -144,7 +144,7 @@ Section Stmt.
   Definition time_ok (t : Z) : Prop := parse_time (fmt_time t) = Some t /\ bytes_eqb (fmt_time t) (B "[") = false.
   Definition otime_ok (t : option Z) : Prop := match t with Some t => time_ok t | None => True end.
   Definition range_ok (r : range) : Prop :=
-    otime_ok (r_t1 r) /\ otime_ok (r_t2 r) /\ (r_t2 r = None -> r_t1 r <> None).
+    otime_ok (r_t1 r) /\ otime_ok (r_t2 r).
   Definition int_ok (z : Z) : Prop := parse_int (pr_Z z) = Some z.
   Definition oint_ok (z : option Z) : Prop := match z with Some z => int_ok z | None => True end.
 
@@ -174,7 +174,7 @@ Section Stmt.
 
   Lemma rt_range r rest : range_ok r -> kw_head K3 rest -> p_range parse_time (tk_range r ++ rest) = ROk r rest.
   Proof.
-    intros (H1 & H2 & H3) Hr. destruct r as [t1 t2]. cbn [r_t1 r_t2] in *.
+    intros (H1 & H2) Hr. destruct r as [t1 t2]. cbn [r_t1 r_t2] in *.
     assert (Hc : not_lit ":" rest) by (apply (kw_head_not_lit _ K3); [exact Hr|reflexivity]).
     assert (Hthird : match rest with
                      | t :: r => if lit ":" t then @RErr bytes 1 else RNo
@@ -186,13 +186,17 @@ Section Stmt.
         cbn [is_ty t_ty str_tok tokty_eqb t_val]. lits. cbn [opt orb]. rewrite Ha, Hb. reflexivity.
       + unfold p_range. cbn [app]. lits.
         cbn [is_ty t_ty str_tok kw_tok tokty_eqb t_val]. lits. cbn [opt orb]. rewrite Hb. reflexivity.
-    - destruct t1 as [a|]; [|exfalso; apply H3; reflexivity].
-      destruct H1 as [Ha Hn]. unfold p_range. cbn [app].
-      assert (Hl : lit "[" (str_tok (fmt_time a)) = false) by exact Hn.
-      rewrite Hl. cbn [is_ty t_ty str_tok tokty_eqb t_val].
-      destruct rest as [|t r].
-      + cbn [opt orb]. rewrite Ha. reflexivity.
-      + cbn in Hc. rewrite Hc. cbn [opt orb]. rewrite Ha. reflexivity.
+    - destruct t1 as [a|].
+      + destruct H1 as [Ha Hn]. unfold p_range. cbn [app].
+        assert (Hl : lit "[" (str_tok (fmt_time a)) = false) by exact Hn.
+        rewrite Hl. cbn [is_ty t_ty str_tok tokty_eqb t_val].
+        destruct rest as [|t r].
+        * cbn [opt orb]. rewrite Ha. reflexivity.
+        * cbn in Hc. rewrite Hc. cbn [opt orb]. rewrite Ha. reflexivity.
+      + (* `RANGE [`: the bracket alone makes the (empty) Range; what follows is the end or a clause keyword *)
+        unfold p_range. cbn [app]. lits.
+        destruct Hr as [->|(k & tl & Hk & ->)]; [reflexivity|].
+        cbn [is_ty t_ty kw_tok tokty_eqb]. cbn in Hc. rewrite Hc. reflexivity.
   Qed.
 
   Lemma rt_kw_int kw z rest : lit kw (kw_tok kw) = true -> int_ok z ->
